@@ -1,6 +1,6 @@
 
-// ---- appended by the verification harness in scratch copies only (cfg openbangla_riti_verif) ----
-#[cfg(openbangla_riti_verif)]
+// ---- appended by the verification harness in scratch copies only (cfg openbangla_riti_verif_internal: hooks into private items; when they no longer compile against the current tree the driver is built without them and only the API-level checks run) ----
+#[cfg(openbangla_riti_verif_internal)]
 impl FixedMethod {
     pub(crate) fn verif_with_buffer(s: &str) -> Self {
         FixedMethod { buffer: s.to_string(), typed: String::new(), pending_kar: None, suggestions: Vec::new(), layout: Layout::verif_empty() }
@@ -16,7 +16,7 @@ impl FixedMethod {
 
 /// C04: finite call-site domain of layout_get_value(_numpad): every (key code, modifier, numpad) through the
 /// public get_char_for_key against the layout JSON read independently (names from the riti.h-derived key table)
-#[cfg(openbangla_riti_verif)]
+#[cfg(openbangla_riti_verif_internal)]
 pub(crate) fn verif_layout_values() -> serde_json::Value {
     use serde_json::json;
     let table: serde_json::Value = serde_json::from_str(&std::fs::read_to_string(crate::verif_driver::gen_file("keytable.json")).unwrap()).unwrap();
